@@ -76,9 +76,60 @@ pub fn check_labelled(st: &RawState) -> Result<Option<Aspect>, Failure> {
     }
 }
 
+/// The same clause without the reference's opinion: a rejected state that the library accepts
+/// once exactly ONE of rights / en-passant square / half-move clock / full-move number is
+/// neutralised (and not when any other one is) has exactly that aspect wrong, whatever rule of
+/// the library (also one stricter than C06) makes it wrong - the error must name it.
+pub fn check_operational(st: &RawState) -> Result<Option<Aspect>, Failure> {
+    let Err(e) = st.builder().build() else { return Ok(None) };
+    let mut fixing: Vec<Aspect> = Vec::new();
+    for a in [Aspect::Rights, Aspect::EnPassant, Aspect::Halfmove, Aspect::Fullmove] {
+        let mut fixed = st.clone();
+        match a {
+            Aspect::Rights => {
+                if fixed.rights == [[None; 2]; 2] {
+                    continue;
+                }
+                fixed.rights = [[None; 2]; 2]
+            }
+            Aspect::EnPassant => {
+                if fixed.ep.is_none() {
+                    continue;
+                }
+                fixed.ep = None
+            }
+            Aspect::Halfmove => {
+                if fixed.hm == 0 {
+                    continue;
+                }
+                fixed.hm = 0
+            }
+            Aspect::Fullmove => {
+                if fixed.fm == 1 {
+                    continue;
+                }
+                fixed.fm = 1
+            }
+            Aspect::Placement => unreachable!(),
+        }
+        if fixed.builder().build().is_ok() {
+            fixing.push(a);
+        }
+    }
+    if fixing.len() != 1 {
+        return Ok(None);
+    }
+    let a = fixing[0];
+    if !variant_matches(&e, a) {
+        let text = st.text();
+        return Err(Failure::new(&format!("C09:wrong-error:{}-reported-as-{:?}", a.name(), e), format!("builder state '{}' is rejected, and accepted as soon as the {} alone is neutralised (and by no other single neutralisation), but build() reports {:?}", text, a.name(), e)).with("bstate", text).with("labelled", "true"));
+    }
+    Ok(Some(a))
+}
+
 pub fn run(ctx: &Ctx) -> Report {
     let mut rep = Report::new(ctx);
-    rep.rule = "Builder states = constructed states (random material, motifs, Chess960 rights, EP, clocks) with 0..3 edits (any piece on any square, removals, adjacent kings, rights on any file, any EP square, clocks 0..255 / 0..65535, flipped turn, ninth pawn, seventeenth man, check against the side not to move, three and more checkers, relocated king). For a state whose rights all lie on the correct side of the king the HARNESS writes the Shredder-FEN record; build().is_ok() must equal from_fen(record, true).is_ok(), both boards must be == (hash, checkers, pins) and from_board(board).build() must reproduce the board; states with a right on the wrong side of the king must be rejected. States with exactly one wrong aspect by the reference (placement, rights, EP square, half-move clock, full-move number) that the library accepts once that aspect is neutralised must be rejected with the variant naming the aspect. Non-trivial = state rejected by at least one constructor, or carrying rights/EP; distinct by state hash.".into();
+    rep.rule = "Builder states = constructed states (random material, motifs, Chess960 rights, EP, clocks) with 0..3 edits (any piece on any square, removals, adjacent kings, rights on any file, any EP square, clocks 0..255 / 0..65535, flipped turn, ninth pawn, seventeenth man, check against the side not to move, three and more checkers, relocated king). For a state whose rights all lie on the correct side of the king the HARNESS writes the Shredder-FEN record; build().is_ok() must equal from_fen(record, true).is_ok(), both boards must be == (hash, checkers, pins) and from_board(board).build() must reproduce the board; states with a right on the wrong side of the king must be rejected. States with exactly one wrong aspect by the reference (placement, rights, EP square, half-move clock, full-move number) that the library accepts once that aspect is neutralised must be rejected with the variant naming the aspect. Independently of the reference: a rejected state that the library accepts once exactly one of rights / EP square / half-move clock / full-move number is neutralised (and by no other single neutralisation) must be rejected with that aspect's variant - this also covers rules of the library that are stricter than C06 (an en-passant square that does not explain the checkers). Non-trivial = state rejected by at least one constructor, or carrying rights/EP; distinct by state hash.".into();
     rep.assumptions = vec!["the harness's record writer is the meaning of 'the record that expresses this state'".into(), "reference defective_aspects() decides which single aspect is wrong".into()];
     rep.required_classes = vec![
         "both-accept", "both-reject", "inexpressible", "with-rights", "with-ep", "three-or-more-checkers", "labelled:placement", "labelled:castling-rights", "labelled:en-passant",
@@ -113,6 +164,12 @@ pub fn run(ctx: &Ctx) -> Report {
         if let Some(a) = check_labelled(&state)? {
             st.class(&format!("labelled:{}", a.name()));
         }
+        if let Some(a) = check_operational(&state)? {
+            st.class(&format!("single-fix:{}", a.name()));
+            if a == Aspect::EnPassant && defective_aspects(&state).is_empty() {
+                st.class("single-fix:en-passant-by-a-library-rule-stricter-than-the-reference");
+            }
+        }
         Ok(())
     }));
     // accepted boards from all sources round-trip through the builder
@@ -132,6 +189,7 @@ pub fn replay(m: &ReplayMap) -> CaseResult {
         let st = RawState::parse(t).ok_or_else(|| Failure::new("bad-replay", "bad bstate".into()))?;
         check_state(&st)?;
         check_labelled(&st)?;
+        check_operational(&st)?;
         return Ok(());
     }
     replay_positions(m, |v| match BoardBuilder::from_board(v.board).build() {
